@@ -95,6 +95,16 @@ theorem C13_nil_fieldbase_panics (T : MesgTable) (m : Message) (h : ∃ f ∈ m.
   unfold ofMesg
   rw [run_panic_of_nil T m.fields Acc.init h]
 
+/-- **Expanded marks through the API.** `MarkAsExpandedField(k, flag)` is accepted exactly for the eligible numbers, then
+sets bit `k` of the bitmap to `flag` and nothing else; a refused call changes nothing. (With `C13_mesg_struct_mesg` /
+`C13_struct_mesg_struct`: the marks a struct carries are the marks its message carries.) -/
+theorem C13_mark_as_expanded (T : MesgTable) (st : Struct) (k : Nat) (flag : Bool) (j : Nat) :
+    (markAsExpanded T st k flag).2 = eligible T k ∧
+    (markAsExpanded T st k flag).1.state.testBit j = (if eligible T k = true ∧ k = j then flag else st.state.testBit j) ∧
+    (markAsExpanded T st k flag).1.vals = st.vals ∧ (markAsExpanded T st k flag).1.unknown = st.unknown ∧
+    (markAsExpanded T st k flag).1.dev = st.dev :=
+  markAsExpanded_spec T st k flag j
+
 /-- the slot-level core of the round trip: reading a value with the generated accessor and testing it as ToMesg does
 yields exactly the protocol-level worth of the value -/
 theorem C13_slot_read_emit (s : Slot) (hw : s.wf = true) (v : Value) : emit s (read s v) = specVal s v :=
